@@ -18,6 +18,12 @@ import lv
 
 def main(pid, args):
     fn = globals().get('check_' + pid)
+    if fn is None and pid in ('C12', 'C13', 'C17', 'C18'):
+        import checks_front
+        fn = getattr(checks_front, 'check_' + pid)
+    if fn is None and pid == 'C20':
+        import checks_lsp
+        fn = checks_lsp.check_C20
     if fn is None:
         print('no check for ' + pid)
         sys.exit(2)
